@@ -72,10 +72,21 @@ def mean_out(outs):
     return res
 
 
+def _py(v):
+    """NumPy scalars / 0-d arrays as Python numbers (the references never compute in a narrow NumPy type)."""
+    try:
+        import numpy as np
+        if isinstance(v, np.generic) or (isinstance(v, np.ndarray) and v.ndim == 0):
+            return v.item()
+    except ImportError:
+        pass
+    return v
+
+
 def mean(vals):
     tot = 0
     for v in vals:
-        tot = tot + v
+        tot = tot + _py(v)
     return tot / len(vals)
 
 
